@@ -1,7 +1,7 @@
 """C20 - the IR evaluator agrees with the compiled code or stops loudly."""
 import re
 
-from .. import hir
+from .. import hir, mir
 from ..facts import relfile
 from ..report import RuleResult
 from .c01 import roots, find_body, eval_table, field_roots
@@ -21,6 +21,9 @@ EXPLANATION += (
 )
 EXPLANATION += (  # round-3 supplement
     ' V1 evaluates float comparison rows written via partial_cmp to the set of orderings for which they are true. V7 pointer offsetting accumulates (old position + offset).'
+)
+EXPLANATION += (
+    ' V8 host calls made by the evaluator: in every RegisterableFn::ir_function closure (16 macro instances) the j-th parameter handed to the trampoline is the from_ir_value conversion of IR argument j (argument 0 being the out pointer).'
 )
 ASSUMPTIONS = [
     "Rust arithmetic on the evaluator's native integers either equals cranelift's wrapping arithmetic or panics (debug overflow checks) - both acceptable for 'agree or stop loudly'",
@@ -537,6 +540,68 @@ def rule_v7(F):
     return r
 
 
+def rule_v8(F):
+    """A host call made by the evaluator must pass the same arguments in the same positions as the compiled code does.  The
+    evaluator reaches registered functions through the closure built by RegisterableFn::ir_function: IR argument 0 is the out
+    pointer, IR argument j is converted (Value::from_ir_value) and handed to the trampoline as the j-th Rust parameter - for every
+    arity and both out-pointer variants (16 macro instances)."""
+    import re
+    r = RuleResult("C20.V8", "evaluator host calls: IR argument j is converted and passed as the j-th parameter of the registered function (all arities)", floor=14)
+    ps = sorted(p for p in F.paths() if "RegisterableFn<" in p and "ir_function::{closure" in p)
+    if len(ps) < 14:
+        r.missing("the ir_function closures of the RegisterableFn impls (found %d)" % len(ps))
+    for p in ps:
+        b = F.body(p)
+        if b is None or not b.mir:
+            continue
+        defs = mir.Defs(b)
+        conv = {bi: t for bi, t in mir.calls(b) if hir.last(mir.callee(t) or "") == "from_ir_value"}
+        tramp = [(bi, t) for bi, t in mir.calls(b) if "ind" in t["f"] and len(t["args"]) >= 2]
+        if not tramp:
+            r.missing("the trampoline call in " + p)
+            continue
+        bi, t = tramp[-1]
+        params = t["args"][2:]
+        dom = mir.dominators(b)
+        extract = {ci: ct for ci, ct in mir.calls(b) if hir.last(mir.callee_def(ct) or "") in ("next", "pop", "remove", "next_back")
+                   and "IrValue" in str(ct["f"].get("gargs") or "") + (mir.callee(ct) or "") + b.mir["locals"][ct["dest"][0]]["ty"]}
+        order = sorted(extract, key=lambda c: len([x for x in extract if x in dom[c]]))
+        rows = []
+        bad = None
+        for j, a in enumerate(params, start=1):
+            if not mir.is_place_op(a):
+                bad = "parameter %d is a constant" % j
+                break
+            cs = [c for c in mir.back_calls(b, defs, a[1][0]) if c in conv]
+            if len(cs) != 1:
+                bad = "parameter %d is not the result of exactly one from_ir_value conversion" % j
+                break
+            src = conv[cs[0]]["args"][1] if len(conv[cs[0]]["args"]) > 1 else None
+            key = mir.origin_key(b, defs, src[1]) if mir.is_place_op(src) else "?"
+            m = re.search(r"\.\[(\d+)\]", key)
+            idx = int(m.group(1)) if m else None
+            if idx is None and mir.is_place_op(src):
+                # taken out of the argument vector one by one: the position follows from the order of the extractions
+                ex = [c for c in mir.back_calls(b, defs, src[1][0]) if c in extract]
+                if len(ex) == 1:
+                    o = order.index(ex[0])
+                    kind = hir.last(mir.callee_def(extract[ex[0]]) or "")
+                    idx = o if kind in ("next", "remove") else (len(order) - 1 - o if kind in ("pop", "next_back") else None)
+            rows.append(idx)
+            if idx is None:
+                bad = "parameter %d is converted from %s, which is not a determinable position of the argument list" % (j, key)
+                break
+            if idx != j:
+                bad = "parameter %d is converted from IR argument %s" % (j, idx)
+                break
+        r.inst(p.split(" as ")[1].split(">::ir_function")[0] if " as " in p else p, {"closure": p, "parameters": len(params), "converted_from_ir_arguments": rows})
+        if bad:
+            r.bad(p, "argument position", relfile(b.file), t.get("line", b.line),
+                  "in the evaluator's wrapper of a registered function %s (IR argument 0 is the out pointer, argument j belongs to parameter j): the evaluator calls the host function with "
+                  "other arguments than the compiled code does" % bad)
+    return r
+
+
 def rules(ctx):
     F = ctx["F"]
-    return [rule_v1(F), rule_v2(F), rule_v3(F), rule_v4(F), rule_v6(F), rule_v7(F)]
+    return [rule_v1(F), rule_v2(F), rule_v3(F), rule_v4(F), rule_v6(F), rule_v7(F), rule_v8(F)]
